@@ -288,8 +288,8 @@ func normalizeVaryHeaderSeq2(vary string, reqHeader http.Header) iter.Seq2[strin
 			value := ""
 			// an empty value is valid and means "no variation"
 			if len(values) > 0 {
-				// NOTE: The policy of this cache is to use just the first header line
-				value = normalizeHeaderValue(name, values[0])
+				// several field lines are one list (RFC 9110 §5.3)
+				value = normalizeHeaderValue(name, strings.Join(values, ","))
 			}
 			if !yield(name, value) {
 				return
